@@ -899,8 +899,95 @@ func ruleRepeatedNesting(c *Ctx) {
 					if !ok || !ta.CommaOk || typeName(ta.AssertedType) != "ProtoSliceWrapper" {
 						continue
 					}
-					// the ok branch returns an error and the assertion is on the way to the store
-					if !(b == st.Block() || b.Dominates(st.Block())) {
+					// the tested value must be able to be the key codec as well as the value codec
+					nsrc := 0
+					seenS := map[ssa.Value]bool{}
+					var srcs func(v ssa.Value, depth int)
+					srcs = func(v ssa.Value, depth int) {
+						if v == nil || depth > 12 || seenS[v] {
+							return
+						}
+						seenS[v] = true
+						switch y := v.(type) {
+						case *ssa.Extract:
+							if call, ok := y.Tuple.(*ssa.Call); ok && y.Index == 0 {
+								if call.Common().IsInvoke() && call.Common().Method.Name() == "CodecForTypeRegistry" {
+									nsrc++
+								}
+							}
+							if ta2, ok := y.Tuple.(*ssa.TypeAssert); ok {
+								srcs(ta2.X, depth+1)
+							}
+						case *ssa.Phi:
+							for _, e := range y.Edges {
+								srcs(e, depth+1)
+							}
+						case *ssa.UnOp:
+							switch a := y.X.(type) {
+							case *ssa.Alloc:
+								for _, r := range *a.Referrers() {
+									if st, ok := r.(*ssa.Store); ok {
+										srcs(st.Val, depth+1)
+									}
+									if ia, ok := r.(*ssa.IndexAddr); ok {
+										for _, r2 := range *ia.Referrers() {
+											if st, ok := r2.(*ssa.Store); ok {
+												srcs(st.Val, depth+1)
+											}
+										}
+									}
+								}
+							case *ssa.IndexAddr:
+								srcs(a.X, depth+1)
+								if al, ok := a.X.(*ssa.Alloc); ok {
+									for _, r := range *al.Referrers() {
+										if ia, ok := r.(*ssa.IndexAddr); ok {
+											for _, r2 := range *ia.Referrers() {
+												if st, ok := r2.(*ssa.Store); ok {
+													srcs(st.Val, depth+1)
+												}
+											}
+										}
+									}
+								}
+							case *ssa.FieldAddr:
+								srcs(a.X, depth+1)
+							}
+						case *ssa.Field:
+							srcs(y.X, depth+1)
+						case *ssa.Index:
+							srcs(y.X, depth+1)
+						case *ssa.TypeAssert:
+							srcs(y.X, depth+1)
+						case *ssa.ChangeInterface:
+							srcs(y.X, depth+1)
+						case *ssa.MakeInterface:
+							srcs(y.X, depth+1)
+						case *ssa.Alloc:
+							for _, r := range *y.Referrers() {
+								if ia, ok := r.(*ssa.IndexAddr); ok {
+									for _, r2 := range *ia.Referrers() {
+										if st, ok := r2.(*ssa.Store); ok {
+											srcs(st.Val, depth+1)
+										}
+									}
+								}
+							}
+						}
+					}
+					srcs(ta.X, 0)
+					if nsrc < 2 {
+						continue
+					}
+					// the ok branch returns an error and the assertion is on the way to the store: its block, or
+					// the header of a loop it sits in (a loop over the codecs to test), dominates the store
+					onWay := b == st.Block() || b.Dominates(st.Block())
+					for h, body := range loopsOf(f) {
+						if body[b] && (h == st.Block() || h.Dominates(st.Block())) {
+							onWay = true
+						}
+					}
+					if !onWay {
 						continue
 					}
 					for _, r := range *ta.Referrers() {
@@ -925,7 +1012,7 @@ func ruleRepeatedNesting(c *Ctx) {
 			pos = st.Pos()
 		}
 		c.Oblige("T.repeated-nesting", good, pos, name, "a value codec in repeated form is rejected before the map codec is built",
-			"a map entry has exactly one value field: a value written as a repeated field (a []string under ProtoCompatibleArrays) is read back as its first element only (map[string][]string{\"k\": {\"x\",\"y\"}} gives {\"k\": {\"x\"}}) - the value codec (through any pointer wrappers) must be tested for ProtoSliceWrapper and rejected", nil)
+			"a map entry has exactly one value field: a value written as a repeated field (a []string under ProtoCompatibleArrays) is read back as its first element only (map[string][]string{\"k\": {\"x\",\"y\"}} gives {\"k\": {\"x\"}}), and a key likewise (map[*[]string]int) - both the key codec and the value codec (through any pointer wrappers) must be tested for ProtoSliceWrapper and rejected", nil)
 	}
 	c.Floor("T.repeated-nesting", 3)
 }
